@@ -284,3 +284,65 @@ class FoldUnit:
 
 
 UNITS = [FoldUnit()]
+
+
+# ---------------------------------------------------------------------------------------------------------------------
+# Number::negate (V-t): the folded unary minus keeps the literal's kind and toggles the sign of its text
+NEG_SPEC = r"""
+use vstd::prelude::*;
+verus! {
+pub enum Number { Integer(Vec<char>), BigInt(Vec<char>), Float(Vec<char>), Byte(Vec<char>) }
+pub open spec fn kind(n: Number) -> int { match n { Number::Integer(_) => 0, Number::BigInt(_) => 1, Number::Float(_) => 2, Number::Byte(_) => 3 } }
+pub open spec fn text(n: Number) -> Seq<char> { match n { Number::Integer(s) | Number::BigInt(s) | Number::Float(s) | Number::Byte(s) => s@ } }
+// the numeral with the opposite sign
+pub open spec fn flipped(s: Seq<char>) -> Seq<char> { if s.len() > 0 && s[0] == '-' { s.drop_first() } else { "-"@ + s } }
+// str::strip_prefix(char) / String concatenation (assumed std contracts)
+#[verifier::external_body]
+pub fn strip_prefix_char(s: &Vec<char>, c: char) -> (r: Option<Vec<char>>)
+    ensures (r is Some <==> (s@.len() > 0 && s@[0] == c)), r is Some ==> r->Some_0@ == s@.drop_first() { unimplemented!() }
+#[verifier::external_body]
+pub fn concat_lit(a: &'static str, b: &Vec<char>) -> (r: Vec<char>) ensures r@ == a@ + b@ { unimplemented!() }
+#[verifier::external_body]
+pub fn to_owned_chars(s: Vec<char>) -> (r: Vec<char>) ensures r@ == s@ { unimplemented!() }
+"""
+
+
+def build_negate(repo):
+    src = Source(repo)
+    log = []
+    f = src.fn(NUM, "negate", "impl Number")
+    rules = [
+        Rule("R1", "use Number :: * ;", "", count=1, why="variants written qualified"),
+        Rule("R1", "fn flip_sign ( x : & str ) -> String", "fn flip_sign ( x : & Vec < char > ) -> ( r : Vec < char > ) ensures r @ == flipped ( x @ )", why="&str/String -> Vec<char>; contract of the nested helper"),
+        Rule("R9", "x . strip_prefix ( '-' )", "strip_prefix_char ( x , '-' )", why="str::strip_prefix(char) with its std contract"),
+        Rule("R1", "positive . to_owned ( )", "to_owned_chars ( positive )", why="&str::to_owned"),
+        Rule("R1", "\"-\" . to_owned ( ) + x", "concat_lit ( \"-\" , x )", why="String concatenation"),
+    ]
+    b = translate(f["body"], rules, log, "Number::negate")
+    out = []
+    for j, t in enumerate(b):
+        if t in ("Integer", "BigInt", "Float", "Byte") and j + 1 < len(b) and b[j + 1] == "(" and (j == 0 or b[j - 1] != "::"):
+            out += ["Number", "::", t]
+        else:
+            out.append(t)
+    check_closed(out, "Number::negate")
+    gen = header(log, f"{NUM}: Number::negate") + NEG_SPEC + f"""
+impl Number {{
+    //@ OBL C06.negate
+    pub fn negate(&self) -> (r: Option<Number>)
+        ensures
+            // the run-time unary minus keeps the kind of a number (and is not defined on bytes): so must the folded one
+            kind(*self) == 3 <==> r is None,
+            r is Some ==> kind(r->Some_0) == kind(*self) && text(r->Some_0) == flipped(text(*self)),
+    {{
+        proof {{ reveal_strlit("-"); assert("-"@ =~= seq!['-']); }}
+{render(out, 2)}
+    }}
+}}
+}} // verus!
+fn main() {{}}
+"""
+    return gen, [Obl("C06.negate", ["C06"], fn="Number::negate", desc="Number::negate: same kind, sign of the numeral toggled (never `--5`); bytes cannot be negated")], log
+
+
+UNITS.append(VUnit("c06_negate", ["C06"], "folded unary minus keeps kind, toggles sign", build_negate))
